@@ -95,6 +95,30 @@ private theorem estNf2_lin (gmin gmax a b : ℝ) (hg : gmin < gmax) (hab : a < b
   have hn : db2lin a - db2lin b < 0 := by have := (db2lin_lt_iff a b).2 hab; linarith
   exact div_pos_of_neg_of_neg hn (den_neg gmin gmax hg)
 
+/-- the first-coil hypothesis of `nf_at_gmax`/`nf_at_gmin` in datasheet terms: it holds as soon as the NF spread
+is smaller than twice the gain range, `nf_max − nf_min < 2·(gain_max − gain_min)` -/
+theorem coil_pos_of_spread (gmin gmax a b : ℝ) (hg : gmin < gmax) (hab : a < b) (h : b - a < 2 * (gmax - gmin)) :
+    0 < db2lin a - db2lin (estNf2 gmin gmax a b) / db2lin (gmax - 5) := by
+  rw [estNf2_lin gmin gmax a b hg hab]
+  have hP := db2lin_pos (gmax - 5)
+  have hQ := db2lin_pos (gmin - (gmax - gmin) - 5)
+  have hA := db2lin_pos a
+  have hQP : db2lin (gmin - (gmax - gmin) - 5) < db2lin (gmax - 5) := (db2lin_lt_iff _ _).2 (by linarith)
+  -- B/A < P/Q
+  have hr : db2lin (b - a) < db2lin ((gmax - 5) - (gmin - (gmax - gmin) - 5)) := (db2lin_lt_iff _ _).2 (by linarith)
+  rw [db2lin_sub, db2lin_sub, div_lt_div_iff₀ hA hQ] at hr
+  generalize db2lin (gmax - 5) = P at *
+  generalize db2lin (gmin - (gmax - gmin) - 5) = Q at *
+  generalize db2lin a = A at *
+  generalize db2lin b = B at *
+  have key : A - (A - B) / (1 / P - 1 / Q) / P = (A * P - B * Q) / (P - Q) := by
+    have h1 : P - Q ≠ 0 := by linarith
+    have h2 : Q - P ≠ 0 := by linarith
+    field_simp
+    ring
+  rw [key]
+  exact div_pos (by linarith) (by linarith)
+
 /-- **NF = nf_min at maximum flat gain** for the unclipped `estimate_nf_model` solution
 (`hcoil`: the first-coil noise factor is positive, which `estimate_nf_model` needs to take its logarithm) -/
 theorem nf_at_gmax (gmin gmax a b : ℝ)
@@ -460,7 +484,11 @@ theorem multiCall_per_band (amps : List (Amp ℝ × Oper ℝ)) (cs : List (Chan 
 example : effGain (20:ℝ) 23 10 = 13 := by rw [effGain, smin_eq_min]; norm_num
 example : effGain (20:ℝ) 23 (-10) = 20 := by rw [effGain, smin_eq_min]; norm_num
 example : callSeq (20:ℝ) 23 [10, -10] = 13 := by simp only [callSeq, effGain, smin_eq_min]; norm_num
-example : (15:ℝ) < 26 ∧ (6:ℝ) < 10 := by norm_num
+/-- the stock `std_medium_gain` datasheet (15–26 dB, NF 6–10 dB) satisfies every hypothesis of `nf_at_gmax`/`nf_at_gmin` -/
+example : nfVar (estNf1 15 26 6 10) (estNf2 15 26 6 10) 5 26 26 = (6:ℝ) ∧
+    nfVar (estNf1 15 26 6 10) (estNf2 15 26 6 10) 5 26 15 = (10:ℝ) := by
+  have hc := coil_pos_of_spread 15 26 6 10 (by norm_num) (by norm_num) (by norm_num)
+  exact ⟨nf_at_gmax 15 26 6 10 hc, nf_at_gmin 15 26 6 10 (by norm_num) (by norm_num) hc⟩
 example : inBand 191275000000000 196125000000000 193000000000000 50000000000 = true := by decide
 example : inBand 191275000000000 196125000000000 191290000000000 50000000000 = false := by decide
 
